@@ -184,6 +184,14 @@ MUTANTS = [
      "        ssrc = StringIO(src)\n        return cls._parse_and_create_from_stream(stream=ssrc,", "get_from_string: the string is wrapped without universal newlines"),
     ("C13", "dendropy/datamodel/basemodel.py", "        with open(src, *open_args) as fsrc:\n            return self._parse_and_add_from_stream(stream=fsrc, schema=schema, **kwargs)",
      "        with open(src, *open_args) as fsrc:\n            return self._parse_and_add_from_stream(stream=fsrc, schema=schema)", "read_from_path: reader options dropped"),
+    ("C13", TM + "_tree.py", "        if tree_offset is None:\n            tree_offset = 0\n        tree_lists = reader.read_tree_lists(",
+     "        if not tree_offset:\n            tree_offset = -1 if tree_offset is None and collection_offset else 0\n        tree_lists = reader.read_tree_lists(",
+     "Tree.get: without a tree offset but with a later collection, the last tree of it"),
+    ("C13", TM + "_tree.py", "        tree_list = tree_lists[collection_offset]\n        if not tree_list:", "        tree_list = tree_lists[collection_offset - 1]\n        if not tree_list:",
+     "Tree.get: collection offset off by one"),
+    ("C13", TC, "        kwargs[\"tree_list\"] = self\n        cur_size = len(self._trees)", "        kwargs[\"tree_list\"] = self\n        kwargs.pop(\"rooting\", None)\n        cur_size = len(self._trees)",
+     "TreeList.read: one reader option swallowed on the incremental route only"),
+    ("C13", TC, "        new_size = len(self._trees)\n        return new_size - cur_size", "        new_size = len(self._trees)\n        return new_size", "TreeList.read returns the size, not the number read"),
     ("C19", "dendropy/datamodel/charmatrixmodel.py", "        self.fill(value=value, size=size, append=append)", "        self.fill(value=value, size=size)",
      "pack: `append` not passed on to fill"),
     ("C19", "dendropy/datamodel/charmatrixmodel.py", "            if taxon not in to_keep:\n                del self._taxon_sequence_map[taxon]",
